@@ -13,6 +13,7 @@ import ast
 import z3
 
 _DT_CACHE = {}
+STRLIKE = set()   # names of opaque sorts that stand for python strings used only as keys: str(x) is x, isinstance(x, str)
 
 
 class T:
@@ -702,6 +703,13 @@ def unwrap(v, t):
         if v.t.nm != t.nm:
             raise TypeError("record mismatch %s vs %s" % (v.t, t))
         return t.dt.mk(*[unwrap(v.fields[fn], ft) for fn, ft in t.fields.items()])
+    if isinstance(t, TRec) and getattr(t, "dictshape", False) and isinstance(v, VDictRec):
+        # a dict literal with constant string keys stored where a dict-shaped record is expected
+        extra = [k for k in v.fields if k not in t.fields]
+        missing = [k for k in t.fields if k not in v.fields and k not in t.optkeys]
+        if extra or missing:
+            raise TypeError("dict literal does not have the shape of %s (extra %s, missing %s)" % (t.nm, extra, missing))
+        return t.dt.mk(*[unwrap(v.fields[fn], ft) if fn in v.fields else ft.none() for fn, ft in t.fields.items()])
     if isinstance(t, TMutRec) and isinstance(v, VDictRec):
         if set(v.fields) != set(t.fields):
             raise TypeError("dict with keys %s is not a %s record" % (sorted(v.fields), t.nm))
@@ -845,6 +853,11 @@ class TypeEnv:
                 return TList(self._p(args[0]), "deque")
             if head in ("Dict", "dict", "Map"):
                 return TMap(self._p(args[0]), self._p(args[1]))
+            if head == "DefaultDict":
+                # collections.defaultdict(float|int): a dict whose missing keys read as 0 (and are inserted by the read)
+                t = TMap(self._p(args[0]), self._p(args[1]))
+                t.default_zero = True
+                return t
             if head in ("OrderedDict", "OMap"):
                 return TMap(self._p(args[0]), self._p(args[1]), ordered=True)
             if head in ("Set", "set"):
